@@ -51,5 +51,17 @@ def ensure_built(quiet=True):
     return BIN
 
 
+SHIMS = os.path.join(BUILD, "shims")
+
+
+def ensure_shims():
+    p = subprocess.run(["make", "-s", "-C", os.path.join(VERIF, "shims"), "OUT=" + SHIMS],
+                       stdout=subprocess.PIPE, stderr=subprocess.STDOUT)
+    if p.returncode != 0:
+        raise MachineryError("building shims failed: " + p.stdout.decode())
+    return SHIMS
+
+
 if __name__ == "__main__":
+    ensure_shims()
     print(ensure_built(quiet=False))
